@@ -394,7 +394,16 @@ impl<I: Ip> TorrentMapShards<I> {
 }
 
 // Use HashMap instead of IndexMap for better lookup performance
+#[cfg(not(aquatic_verif))]
 type TorrentMapShard<T> = HashMap<InfoHash, Arc<RwLock<PeerMap<T>>>>;
+// Fixed hasher: iteration order of a shard must not vary between executions
+// that a controlled scheduler replays
+#[cfg(aquatic_verif)]
+type TorrentMapShard<T> = HashMap<
+    InfoHash,
+    Arc<RwLock<PeerMap<T>>>,
+    ::std::hash::BuildHasherDefault<::std::collections::hash_map::DefaultHasher>,
+>;
 
 pub enum PeerMap<I: Ip> {
     Small(SmallPeerMap<I>),
